@@ -8,6 +8,7 @@ From ChiaV.Cond Require Import Invariants Syntax Collect Rules Refine.
 From ChiaV.Cond Require Import Guards Accept Totals Final.
 From ChiaV.Cond Require Import Local LocalRules Declarative.
 From ChiaV.Cond Require Import Summary.
+From ChiaV.Cond Require Import Flags.
 From ChiaV.Props Require Import C01.
 Check C01_opcodes_are_consensus :
   [REMARK; AGG_SIG_PARENT; AGG_SIG_PUZZLE; AGG_SIG_AMOUNT; AGG_SIG_PUZZLE_AMOUNT; AGG_SIG_PARENT_AMOUNT;
@@ -104,3 +105,9 @@ Check C01_accepted_summary :
     b_agg_sig_unsafe b = all_unsafe ps /\
     pairs = (if f_dont_validate fl then [] else all_pairs H K ps).
 Print Assumptions C01_accepted_summary.
+Check C01_accepted_flags :
+  forall vk H K fl V t max_cost clvm_cost b spends pairs,
+  parse_spends vk H K fl V t max_cost clvm_cost = Ok (b, spends, pairs) ->
+  exists ps, tree_syntax fl t = Ok ps /\
+    Forall2 (fun s p => sp_ff s = ff_rule H V ps p /\ sp_dedup s = dedup_rule V p) spends ps.
+Print Assumptions C01_accepted_flags.
